@@ -50,7 +50,7 @@ def run(repo, chk, tier):
     if fn.params[:3] != ["ja", "jb", "jc"]:
         raise AnalysisError("GetA2BC_LS_list parameters changed: %s" % fn.params)
     half = sp.Rational(1, 2)
-    spins = [sp.Integer(0), half, sp.Integer(1), 3 * half] + ([sp.Integer(2)] if tier == "thorough" else [])
+    spins = [k * half for k in range(0, 5 if tier != "thorough" else 9)]  # quick: 0..2, thorough: 0..4 (the range the property names)
     parities = list(itertools.product((1, -1), repeat=3)) + [(None, 1, 1), (1, None, -1), (-1, 1, None), (None, None, None)]
     hooks = {"builtin.isinstance": lambda tr, args, kwargs, n: isinstance(args[0], int) or bool(getattr(args[0], "is_Integer", False)), "allow_raise": True}
     tr = Translator(repo, hooks=hooks, max_depth=3)
